@@ -217,6 +217,27 @@ theorem Rel.touch_own {st : State} {a : AState} (h : Rel st a) (c : Cls) :
       simpa using this
     · simp [hks]
 
+/-! ### what the model consumes from the GENERATED source tables (`PyrollModel/Gen/C01Hooks.lean`)
+
+These four lemmas are the only places where the simulation proof looks at the tables read from `pyroll/core/hooks.py`: the
+stores are walked in the documented order, each store is yielded reversed, `add_function` appends to the store of the
+flags, `remove_function` looks into all six stores.  They are decided by evaluation of the generated data; a source
+change that alters one of them makes the lemma - and every theorem of C01 that rests on the simulation - fail to build. -/
+
+/-- `functions_gen` walks the stores in the documented order (wrappers first; first, normal, last) -/
+theorem implTiers_eq : implTiers = tiers6 := by decide
+
+/-- `_yield_functions_from` yields a store through `reversed(...)` -/
+theorem orient_gen (l : List HF) : orient Gen.C01.Hooks.yieldReversed l = l.reverse := rfl
+
+/-- `add_function` appends to the store that belongs to the flags -/
+theorem addStore_gen (w : Bool) (t : Tier) : addStore? w t = some (w, t) := by
+  cases w <;> cases t <;> decide
+
+/-- `remove_function` looks into every one of the six stores -/
+theorem removeHits_gen (w : Bool) (t : Tier) : removeHits w t = true := by
+  cases w <;> cases t <;> decide
+
 theorem walk_rel {st : State} {a : AState} (w : Bool) (t : Tier) (m : List Cls) :
     Rel st a → Rel (walk w t st m).1 a ∧ (walk w t st m).2 = m.flatMap fun k => (alog a k w t).reverse := by
   induction m generalizing st with
@@ -226,7 +247,7 @@ theorem walk_rel {st : State} {a : AState} (w : Bool) (t : Tier) (m : List Cls) 
     have h1 := h.touch s
     obtain ⟨r1, r2⟩ := ih h1
     refine ⟨r1, ?_⟩
-    simp only [walk, List.flatMap_cons, r2, h1.stores]
+    simp only [walk, orient_gen, List.flatMap_cons, r2, h1.stores]
 
 theorem walkAll_rel {st : State} {a : AState} (m : List Cls) (ks : List (Bool × Tier)) :
     Rel st a → Rel (walkAll st m ks).1 a ∧
@@ -243,11 +264,11 @@ theorem walkAll_rel {st : State} {a : AState} (m : List Cls) (ks : List (Bool ×
 /-- the resolution order computed by the code is the documented order of the live registrations -/
 theorem Rel.implOrder_eq {st : State} {a : AState} (h : Rel st a) (c : Cls) :
     implOrder st c = specOrder (a.mro c) a.log := by
-  rw [implOrder, (walkAll_rel (st.mro c) tiers6 h).2]
+  rw [implOrder, implTiers_eq, (walkAll_rel (st.mro c) tiers6 h).2]
   simp only [specOrder, specRegs, List.map_flatMap, List.map_reverse, alog, h.mro_eq]
 
 theorem Rel.touchAll {st : State} {a : AState} (h : Rel st a) (c : Cls) : Rel (Hooks.touchAll st c) a :=
-  (walkAll_rel _ tiers6 (h.touch c)).1
+  (walkAll_rel _ implTiers (h.touch c)).1
 
 theorem Rel.foldTouchAll {a : AState} (cs : List Cls) : ∀ {st : State}, Rel st a → Rel (cs.foldl Hooks.touchAll st) a := by
   induction cs with
@@ -258,11 +279,12 @@ theorem Rel.foldTouchAll {a : AState} (cs : List Cls) : ∀ {st : State}, Rel st
 
 theorem push_store (h : HookObj) (w : Bool) (t : Tier) (f : HF) (w' : Bool) (t' : Tier) :
     (h.push w t f).store w' t' = if w' = w ∧ t' = t then h.store w' t' ++ [f] else h.store w' t' := by
-  cases w <;> cases t <;> cases w' <;> cases t' <;> simp [HookObj.push, HookObj.store]
+  rw [HookObj.push, addStore_gen]
+  cases w <;> cases t <;> cases w' <;> cases t' <;> simp [HookObj.pushAt, HookObj.store]
 
 theorem erase_store (h : HookObj) (id : Nat) (w : Bool) (t : Tier) :
     (h.erase id).store w t = eraseId (h.store w t) id := by
-  cases w <;> cases t <;> rfl
+  cases w <;> cases t <;> simp [HookObj.erase, HookObj.store, removeHits_gen]
 
 /-- `list.remove` of a function whose id occurs at most once = dropping every entry with that id -/
 theorem eraseId_eq_filter (l : List Reg) (id : Nat) (hs : l.Pairwise (fun r1 r2 => r1.hf.id < r2.hf.id)) :
@@ -298,7 +320,7 @@ theorem Rel.step {st : State} {a : AState} (h : Rel st a) (op : Op) : Rel (Hooks
   | readFns c =>
     simp only [Hooks.step, astep, functionsOf]
     split
-    · exact (walkAll_rel _ tiers6 (h.touch c)).1
+    · exact (walkAll_rel _ implTiers (h.touch c)).1
     · exact h.touch c
   | read c => exact Rel.foldTouchAll _ (h.touchAll c)
   | defClass c m hook =>
